@@ -25,8 +25,8 @@ SPEC = dict(
 META = dict(
     text=("Coq theorems over an executable model of collector/topn.go, slice.go, heap.go (container/heap modelled exactly), "
           "sort.go and the TopNSearch front end: the collector returns the [from, from+n) slice of the insertion-sorted "
-          "ranking for both stores, the pruning bound is sound, search-after/before pages are adjacent slices and chains "
-          "cover the ranking. The model is tied to the code on every run by vm_compute on observed results and by "
+          "ranking for both stores (independent of the store switch and of the preallocation cap), the pruning bound is sound, "
+          "search-after/before pages are adjacent slices and both the After chain and the Before chain cover the ranking. The model is tied to the code on every run by vm_compute on observed results and by "
           "regenerated constants (store switch threshold, sentinel sort keys)."),
     design_ref="DESIGN.md Part 2 C09",
     note=("Trusted: Coq kernel, goextract, harness. Known finding C09-sentinel-collision: present sort keys at/below the low "
